@@ -352,7 +352,7 @@ func (x *fnv) runAts(s *State, callee string, call *ast.CallExpr, after bool, re
 	// the ordinal of a call site is its position in source order among the calls with the same callee text
 	n := x.callSiteOrd[call]
 	for _, at := range x.fc.Ats {
-		if at.Callee != callee || (at.Nth != 0 && at.Nth != n) || at.After != after {
+		if !atMatches(at.Callee, callee) || (at.Nth != 0 && at.Nth != n) || at.After != after {
 			continue
 		}
 		x.atDone[at]++
@@ -603,4 +603,15 @@ func (x *fnv) capturedWrites() []string {
 	}
 	sort.Strings(out)
 	return out
+}
+
+// atMatches: an at-clause names the callee text exactly, or `*.method` for any receiver expression.
+func atMatches(pattern, callee string) bool {
+	if pattern == callee {
+		return true
+	}
+	if strings.HasPrefix(pattern, "*.") {
+		return strings.HasSuffix(callee, pattern[1:])
+	}
+	return false
 }
